@@ -6,7 +6,7 @@ PID = "C04"
 MODULES = ["Prelude", "C02_Model", "C02_Spec", "C02_Check", "C04_Model", "C04_Spec", "C04_Check"]
 PROPS_MODULE = "C04_Properties"
 THEOREMS = ["C04_path_segments_preserved", "C04_query_multimap_preserved", "C04_headers_end_to_end",
-            "C04_response_relayed", "C04_terminated_not_forwarded", "C04_method_body_preserved"]
+            "C04_response_relayed", "C04_terminated_not_forwarded", "C04_method_body_preserved", "C04_upgrade_forwarded"]
 EVAL = "C04_Check.eval"
 CLAUSES = ["agree", "method_body_host", "path_segments", "query_multimap", "headers_end_to_end", "response_relayed",
            "termination"]
@@ -224,6 +224,9 @@ def gen_case(rng):
         host = "plain.test"
     if rng.chance(1, 9):
         # a connection upgrade (exec / attach / port-forward): every header is forwarded on this path
+        # (a "Connection: close" of the client makes net/http's Request.Write emit one more "Connection: close"
+        #  line of its own on this path; not modelled, so not generated together with an upgrade)
+        hs = [(k, v) for k, v in hs if not (k.lower() == b"connection" and b"close" in v.lower())]
         hs = hs + [(L.rand_case_flip(rng, b"Connection"), rng.choice([b"Upgrade", b"upgrade", b"keep-alive, Upgrade"])),
                    (b"Upgrade", rng.choice([b"SPDY/3.1", b"websocket"]))]
         hs = rng.shuffle(hs)
@@ -362,10 +365,17 @@ def stats(case, obs):
     return labs
 
 
+def _is_upgrade(hs):
+    return any(bytes(h["k"]).lower() == b"connection" and b"upgrade" in bytes(h["v"]).lower() for h in hs)
+
+
 def shrink(case):
     hs = case["headers"]
     for i in range(len(hs)):
-        yield dict(case, headers=hs[:i] + hs[i + 1:])
+        rest = hs[:i] + hs[i + 1:]
+        if case["reply"]["status"] == 101 and not _is_upgrade(rest):
+            continue        # a scripted 101 only makes sense as the answer to an upgrade request
+        yield dict(case, headers=rest)
     rh = case["reply"]["headers"]
     for i in range(1, len(rh)):      # entry 0 is the Content-Type (without it net/http sniffs one)
         yield dict(case, reply=dict(case["reply"], headers=rh[:i] + rh[i + 1:]))
@@ -404,6 +414,6 @@ LEVEL_TEXT = ("partial proof: Coq theorems over every method, request-target, he
               "the differential run of the real handler chain against the model on every check")
 LEVEL_NOTE = ("trusted: Coq kernel + vm_compute, the hand-written models (tied to /repo by the differential run only), the Go rig "
               "(real chain + stub upstream, raw TCP client) and overlay export; modelled not verified: net/url, net/http request/"
-              "response framing, HTTP/2, connection upgrades, RequestInfo resolution; method and body pass through the model "
+              "response framing, HTTP/2, the tunnel of a connection upgrade (its request is modelled), RequestInfo resolution; method and body pass through the model "
               "unchanged by construction (their fidelity rests on the differential run: digest+length compared); no axioms")
 TECHNIQUE = "Coq proof (URL/query/header transforms, percent codec) + differential model/implementation correspondence on the real handler chain"
